@@ -396,6 +396,26 @@ pub fn worker(args: &[String]) -> i32 {
             crate::run::worker_shard::<BufCase>("buf", seed, shard, cases, 500, &move |t| decode(t, tier), &check_buf)
         }
         Some("one") => crate::run::worker_one::<BufCase>("buf", &check_buf),
+        Some("corpus") => {
+            // vh worker corpus <dir>: a few valid buffers as libFuzzer seeds
+            let dir = std::path::PathBuf::from(&args[1]);
+            let _ = std::fs::create_dir_all(&dir);
+            let res = gen::scriptlet_resources();
+            let lists: Vec<Vec<&str>> = vec![
+                vec![],
+                vec!["||example.com^"],
+                vec!["/ads/*^x$script,domain=a.com|~b.a.com", "@@||ok.com^$generichide", "a.com##.ad", "a.com#@#.ad"],
+                vec!["/re[a-z]+/$match-case,tag=t", "||x.com^$redirect=noop.js:5", "||x.com^$csp=script-src 'none'", "x.*##+js(set, a, b)", "x.com##.a:style(color: red)", "##.generic", "###id > .x"],
+            ];
+            for (i, l) in lists.iter().enumerate() {
+                for (dbg, opt) in [(false, false), (true, true)] {
+                    let rules: Vec<String> = l.iter().map(|s| s.to_string()).collect();
+                    let b = build_engine(&rules, dbg, opt, &res).serialize_raw().unwrap_or_default();
+                    let _ = std::fs::write(dir.join(format!("valid-{}-{}{}", i, dbg as u8, opt as u8)), b);
+                }
+            }
+            0
+        }
         _ => 2,
     }
 }
